@@ -55,7 +55,11 @@ def plan(tier, seed):
         for mesh, fwin in itertools.product(([2, 2, 2], [3, 2, 1], [2, 2, 3]) if tier == "quick" else ([2, 2, 2], [3, 2, 1], [2, 2, 3], [4, 4, 4], [1, 1, 5], [3, 3, 3]), (None, "window")):
             g.append({"part": "tdm", "xtal": name, "mesh": mesh, "fwin": fwin})
         groups.append(g)
-    meta = {"alphabet": {"crystals": xts, "supercells": len(sss), "statistics": 2, "cutoff": 2, "temperature_sequences": 2, "rd_cases": n},
+    from checks.c17 import CALCS
+
+    groups.append([{"part": "rdapi", "calc": cc, "xtal": xn, "S": S_, "T": T_} for cc in CALCS for xn, S_ in (("tri-P1-2", [[1, 1, 0], [-1, 1, 0], [0, 0, 1]]), ("tri-P1-3", [[2, 0, 0], [0, 1, 0], [0, 0, 1]]))
+                   for T_ in (300.0, 0.0)])
+    meta = {"alphabet": {"crystals": xts, "api_calculators": [str(x) for x in CALCS], "supercells": len(sss), "statistics": 2, "cutoff": 2, "temperature_sequences": 2, "rd_cases": n},
             "bound": "complete product", "exhaustive": True, "not_covered": ["max_distance clipping (non-linear) beyond |u| <= max_distance"]}
     return groups, meta
 
@@ -260,6 +264,47 @@ def run_tdm(case, seed, st):
     return dict(ok=True, nontrivial=True, transitions=4, outcome="ok:tdm")
 
 
+def run_rdapi(case, seed):
+    """Through the Phonopy API with a calculator's unit system: the same physical crystal gives the same displacements, expressed in
+    the calculator's length unit (same random seed = same variates).  Only crystals without degenerate modes: inside a degenerate
+    subspace the eigenvector basis, hence the sample drawn for a given seed, is arbitrary (the distribution is what run_rd judges)."""
+    from phonopy import Phonopy
+    from phonopy.interface.calculator import get_default_physical_units
+    from phonopy.structure.atoms import PhonopyAtoms
+
+    from checks.c17 import LENGTH, parse_unit
+
+    calc = case["calc"]
+    c = phx.xtal(case["xtal"])
+    ph0 = phx.make_phonopy(c, case["S"], None)
+    fc = phx.supercell_fc(ph0, phx.model_for(ph0, "nn", seed))
+    ph0.force_constants = fc
+    u = get_default_physical_units(calc)
+    L = LENGTH[u["length_unit"]]
+    fcu = parse_unit(u["force_constants_unit"])
+    cell = PhonopyAtoms(symbols=c["symbols"], cell=np.array(c["lattice"]) / L, scaled_positions=c["positions"])
+    phc = phx.quiet(Phonopy, cell, supercell_matrix=case["S"], calculator=calc, factor=u["factor"])
+    phc.force_constants = fc / fcu
+    out = {}
+    for nm, ph in (("default", ph0), ("calc", phc)):
+        ph.init_random_displacements()
+        a = np.array(ph.get_random_displacements_at_temperature(case["T"], 3, random_seed=11))
+        phx.quiet(ph.generate_displacements, number_of_snapshots=3, temperature=case["T"], random_seed=11)
+        b = np.array(ph.dataset["displacements"])
+        out[nm] = (a, b)
+    tag = "%s" % calc
+    scale = max(np.abs(out["default"][0]).max(), 1e-12)
+    for k, what in ((0, "get_random_displacements_at_temperature"), (1, "generate_displacements(temperature=)")):
+        if out["calc"][k].shape != out["default"][k].shape:
+            return dict(ok=False, sig="C19/api-units/shape/" + tag, nontrivial=True, msg="%s: shapes differ" % what)
+        e = np.abs(out["calc"][k] * L - out["default"][k]).max() / scale
+        if e > 5e-6:
+            return dict(ok=False, sig="C19/api-units/%s" % tag, nontrivial=True, resid=float(e),
+                        msg="%s %s T=%g: %s of the crystal given in %s units, converted to Angstrom (x%g), differs from the eV/Angstrom run by %.3g (rel); ratio of norms %.4g" % (
+                            case["xtal"], calc, case["T"], what, calc, L, e, np.linalg.norm(out["calc"][k] * L) / np.linalg.norm(out["default"][k])))
+    return dict(ok=True, nontrivial=bool(abs(L - 1) > 1e-9), transitions=4, outcome="ok:api-units")
+
+
 def run_group(cases, seed):
     st = {}
-    return [run_rd(c, seed, st) if c["part"] == "rd" else run_tdm(c, seed, st) for c in cases]
+    return [run_rdapi(c, seed) if c["part"] == "rdapi" else run_rd(c, seed, st) if c["part"] == "rd" else run_tdm(c, seed, st) for c in cases]
